@@ -8,7 +8,10 @@ Property theorems over the model `HcipyVerif.Serial` (see `Model/Serial.lean` fo
 modelled).  Hypotheses used throughout:
 
 * `knownSystem g.system` — the grid's class is registered in `Grid._coordinate_systems`
-  (`CartesianGrid`, `PolarGrid`); the abstract base `Grid` is not (`base_grid_not_readable`);
+  (`CartesianGrid`, `PolarGrid` and, after the repair of D161, the base `Grid`).  This is **not** an
+  invariant of writable objects: `grid_file_readable_iff` states, at top level, that a grid that can
+  be written can be read back *iff* its system is registered (a user subclass that never called
+  `Grid._add_coordinate_system` is written but not readable; explicit assumption of the harness);
 * `Coords.WellFormed` — `delta` and `zero` of regular coordinates are what `ndarray.tolist()`
   yields: all Python ints or all Python floats.
 -/
@@ -36,6 +39,23 @@ theorem unravel_ravel (s idx : List Nat) (h : InBounds idx s) : unravel s (ravel
 
 theorem unravel_in_bounds (s : List Nat) (k : Nat) (h : k < prod s) : InBounds (unravel s k) s :=
   unravel_inBounds s k h
+
+/-- `np.ravel_multi_index` / `np.unravel_index` *with their checks* (the maps the driver runs and the
+harness compares with NumPy, refusals included): an index is accepted exactly when it is `InBounds`,
+a flat index exactly when it is below the size — the hypotheses of the two theorems above are what
+NumPy checks — and on what is accepted the two are inverse to each other. -/
+theorem ravel_checked_inverse (s : List Nat) :
+    (∀ idx, (ravelChecked s idx).toBool = true ↔ InBounds idx s) ∧
+    (∀ k, (unravelChecked s k).toBool = true ↔ k < prod s) ∧
+    (∀ k, k < prod s → (unravelChecked s k).bind (ravelChecked s) = .ok k) ∧
+    (∀ idx, InBounds idx s → (ravelChecked s idx).bind (unravelChecked s) = .ok idx) := by
+  refine ⟨fun idx => ?_, fun k => ?_, fun k hk => ?_, fun idx hi => ?_⟩
+  · by_cases h : InBounds idx s <;> simp [ravelChecked, h, Except.toBool]
+  · by_cases h : k < prod s <;> simp [unravelChecked, h, Except.toBool]
+  · simp [unravelChecked, ravelChecked, hk, Except.bind, unravel_inBounds s k hk, ravel_unravel' s k hk]
+  · simp [unravelChecked, ravelChecked, hi, Except.bind, ravel_lt s idx hi, unravel_ravel' s idx hi]
+
+example : InBounds [1, 2] [2, 3] ∧ ¬ InBounds [2, 0] [2, 3] ∧ ¬ InBounds [1] [2, 3] := by decide
 
 /-- Element `idx` of `a.reshape(s)` is the element of `a` with the same row-major rank, for every
 pair of shapes. -/
@@ -103,20 +123,32 @@ theorem grid_dict_roundtrip (g : Grid) (h : g.Ok) : Grid.fromDict g.toDict = .ok
   obtain ⟨hs, hc⟩ := h
   obtain ⟨s, c, w⟩ := g
   simp only at hs hc
-  simp [Grid.toDict, Grid.fromDict, Tree.get, lookup, bind, Except.bind,
+  simp [Grid.toDict, Grid.fromDict, Grid.fromDictWith, Tree.get, lookup, bind, Except.bind,
     coords_dict_roundtrip c hc, hs]
 
 example : (⟨.polar, .separated [⟨"f8", [2], [0, 1]⟩, ⟨"f8", [3], [0, 1, 3]⟩], .null⟩ : Grid).Ok := by
   simp [Grid.Ok, knownSystem, Coords.WellFormed]
 
-/-- The abstract base `Grid` (coordinate system `'none'`) has a dictionary form that `from_dict`
-rejects with `KeyError`: it is written by asdf/fits but cannot be read. -/
-theorem base_grid_not_readable (g : Grid) (hs : knownSystem g.system = false)
+example : (⟨.noneSys, .regular [.float 1] [3] [.float 0], .null⟩ : Grid).Ok := by
+  simp [Grid.Ok, knownSystem, Coords.WellFormed, Homogeneous, PyNum.isInt]
+
+/-- A grid whose coordinate system is not registered in `Grid._coordinate_systems` has a dictionary
+form that `from_dict` rejects with `KeyError`. -/
+theorem unregistered_grid_not_readable (g : Grid) (hs : knownSystem g.system = false)
     (hc : g.coords.WellFormed) : Grid.fromDict g.toDict = .error .key := by
   obtain ⟨s, c, w⟩ := g
   simp only at hs hc
-  simp [Grid.toDict, Grid.fromDict, Tree.get, lookup, bind, Except.bind,
+  simp [Grid.toDict, Grid.fromDict, Grid.fromDictWith, Tree.get, lookup, bind, Except.bind,
     coords_dict_roundtrip c hc, hs]
+
+example : knownSystem (⟨.other, .regular [.float 1] [3] [.float 0], .null⟩ : Grid).system = false := rfl
+
+/-- The dictionary form of a grid is readable exactly when its coordinate system is registered. -/
+theorem grid_dict_readable_iff (g : Grid) (hc : g.coords.WellFormed) :
+    (Grid.fromDict g.toDict).toBool = true ↔ knownSystem g.system = true := by
+  cases hs : knownSystem g.system
+  · simp [unregistered_grid_not_readable g hs hc, Except.toBool]
+  · simp [grid_dict_roundtrip g ⟨hs, hc⟩, Except.toBool]
 
 theorem field_dict_roundtrip (f : Field) (h : f.grid.Ok) : Field.fromDict f.toDict = .ok f := by
   obtain ⟨v, g⟩ := f
@@ -189,10 +221,98 @@ theorem modebasis_without_grid_has_no_dict (b : ModeBasis) (h : b.grid = none) :
     b.toDict = .error .attr := by
   simp [ModeBasis.toDict, h]
 
-/-- `to_dict` leaves the object as it was (it reads `_weights`, never the materialising
-`weights` property). -/
-theorem to_dict_pure (g : Grid) (f : Field) (b : ModeBasis) :
-    g.toDictSt.1 = g ∧ f.toDictSt.1 = f ∧ b.toDictSt.1 = b := ⟨rfl, rfl, rfl⟩
+/-! ## writing never alters the object
+
+The object is the state of a `StateM` program (`Model/Serial.lean`, "object state"): `_weights` is
+lazily materialised by the *property* `grid.weights`, so a `to_dict` that read the property instead
+of the attribute would change the object being written (`to_dict_bad_alters`).  The driver op
+`todict-st` runs these very programs; the harness compares `_weights is None` before / after each
+real `to_dict` and each real write with them. -/
+
+/-- Frame lemma for grids: a `to_dict` preserves the grid as soon as its way of obtaining the
+weights does. -/
+theorem grid_to_dict_frame (getW : StateM Grid Tree) (h : ∀ g, (getW.run g).2 = g) (g : Grid) :
+    ((Grid.toDictMWith getW).run g).2 = g := h g
+
+/-- Frame lemma: whatever `to_dict` the grid has, if it preserves grids then `Field.to_dict` and
+`ModeBasis.to_dict` preserve the field / the basis. -/
+theorem field_to_dict_frame (gd : StateM Grid Tree) (hgd : ∀ g, (gd.run g).2 = g) (f : Field) :
+    ((Field.toDictMWith gd).run f).2 = f := by
+  obtain ⟨v, g⟩ := f
+  have := hgd g
+  simp only [StateT.run] at this
+  show (⟨v, (gd g).2⟩ : Field) = ⟨v, g⟩
+  rw [this]
+
+theorem basis_to_dict_frame (gd : StateM Grid Tree) (hgd : ∀ g, (gd.run g).2 = g) (b : ModeBasis) :
+    ((ModeBasis.toDictMWith gd).run b).2 = b := by
+  obtain ⟨tm, og⟩ := b
+  cases og with
+  | none => rfl
+  | some g =>
+    have := hgd g
+    simp only [StateT.run] at this
+    show (⟨tm, some (gd g).2⟩ : ModeBasis) = ⟨tm, some g⟩
+    rw [this]
+
+/-- **Writing never alters the object** (dictionary form): grid, field and mode basis are, after
+`to_dict`, what they were before, and the tree is the one the pure `toDict` describes. -/
+theorem to_dict_preserves (g : Grid) (f : Field) (b : ModeBasis) :
+    Grid.toDictM.run g = (g.toDict, g) ∧ Field.toDictM.run f = (f.toDict, f) ∧
+    ModeBasis.toDictM.run b = (b.toDict, b) := by
+  refine ⟨rfl, rfl, ?_⟩
+  obtain ⟨tm, og⟩ := b
+  cases og <;> rfl
+
+/-- **Writing never alters the object** (files): `write_grid` (asdf / fits), `write_field(fits)` and
+`write_mode_basis(fits)` leave the object as it was and write what the pure writers describe,
+whether or not the write is refused. -/
+theorem write_preserves (lib : AsdfLib) (g : Grid) (f : Field) (b : ModeBasis) :
+    (writeGridM Grid.toDictM lib).run g = (writeGridFits lib g, g) ∧
+    (writeFieldFitsM Grid.toDictM).run f = (writeFieldFits f, f) ∧
+    (writeBasisFitsM Grid.toDictM).run b = (writeBasisFits b, b) := by
+  refine ⟨rfl, rfl, ?_⟩
+  obtain ⟨tm, og⟩ := b
+  cases og <;> rfl
+
+/-- The property `grid.weights` stores what it computes: afterwards `_weights` is not `None`. -/
+theorem weights_property_materialises (auto : AutoWeights) (g : Grid) :
+    (((Grid.weightsProperty auto).run g).2).weights.isNull = false := by
+  rw [weightsProperty_run]
+  by_cases hw : g.weights.isNull = true
+  · rw [if_pos hw]
+    by_cases ha : (auto g.coords).isNull = true
+    · simp only [if_pos ha]; rfl
+    · simp only [if_neg ha]; simpa using ha
+  · rw [if_neg hw]; simpa using hw
+
+/-- The model can express a violation: a `to_dict` that reads the property `weights` alters
+**every** grid whose weights were not yet materialised (and no other), whatever the automatic
+weights of its class are; the alteration propagates to a field on that grid. -/
+theorem to_dict_bad_alters (auto : AutoWeights) (g : Grid) :
+    (((Grid.toDictMBad auto).run g).2 ≠ g ↔ g.weights.isNull = true) ∧
+    (g.weights.isNull = true → ∀ v, ((Field.toDictMWith (Grid.toDictMBad auto)).run ⟨v, g⟩).2 ≠ ⟨v, g⟩) := by
+  have hstate : ((Grid.toDictMBad auto).run g).2 = ((Grid.weightsProperty auto).run g).2 := rfl
+  have hmat := weights_property_materialises auto g
+  constructor
+  · constructor
+    · intro hne
+      by_contra hw
+      apply hne
+      rw [hstate, weightsProperty_run, if_neg hw]
+    · intro hw heq
+      rw [hstate] at heq
+      rw [heq, hw] at hmat
+      cases hmat
+  · intro hw v heq
+    have h2 : (((Field.toDictMWith (Grid.toDictMBad auto)).run ⟨v, g⟩).2).grid
+        = ((Grid.toDictMBad auto).run g).2 := rfl
+    rw [heq] at h2
+    simp only at h2
+    rw [hstate] at h2
+    rw [← h2, hw] at hmat
+    cases hmat
+example : (⟨.cartesian, .regular [.float 1] [3] [.float 0], .null⟩ : Grid).weights.isNull = true := rfl
 
 /-! ## the FITS paths -/
 
@@ -201,10 +321,11 @@ whenever `write_field` can write the file, `read_field` returns the field that w
 (values, tensor shape, grid).  Separated grids travel as an image of shape `ts ++ grid.shape`,
 the others inside the embedded tree. -/
 theorem fits_field_roundtrip (f : Field) (ts : List Nat) (h : f.grid.Ok)
+    (hnd : 0 < f.grid.coords.ndim)
     (hshape : f.values.shape = ts ++ [f.grid.coords.size]) (file : FitsFile)
     (hw : writeFieldFits f = .ok file) : readFieldFits file = .ok f := by
   obtain ⟨⟨dt, shape, data⟩, g⟩ := f
-  simp only at hshape h
+  simp only at hshape h hnd
   subst hshape
   unfold writeFieldFits at hw
   by_cases hsep : g.coords.isSeparated = true
@@ -216,8 +337,7 @@ theorem fits_field_roundtrip (f : Field) (ts : List Nat) (h : f.grid.Ok)
     split at hw
     · injection hw with hw
       subst hw
-      have ht := take_length_sub ts g.coords.shape g.coords.ndim hlen
-      simp only [List.length_append] at ht
+      have ht := pyDropLast_append ts g.coords.shape g.coords.ndim hlen hnd
       simp [readFieldFits, Field.toDict, Tree.erase, eraseKey, Tree.set, setKey, Tree.get, lookup,
         grid_dict_roundtrip g h, bind, Except.bind, Arr.reshape, ht, hprod, Field.fromDict, asArr]
     · cases hw
@@ -230,12 +350,46 @@ example : (⟨⟨"f8", [2, 4], [1, 2, 3, 4, 5, 6, 7, 8]⟩,
     ⟨.cartesian, .unstructured [⟨"f8", [4], [0, 1, 3, 4]⟩, ⟨"f8", [4], [0, 2, 5, 7]⟩], .null⟩⟩ : Field).values.shape
     = [2] ++ [(Coords.unstructured [⟨"f8", [4], [0, 1, 3, 4]⟩, ⟨"f8", [4], [0, 2, 5, 7]⟩]).size] := by decide
 
+/-! Witnesses of the **image branch** (separated grids; the example above is the tree branch): a
+vector field on a regular 3 × 2 grid and a (2, 1) tensor field on a separated polar grid satisfy
+the hypotheses, are written as images of shape `tensor shape ++ grid.shape`, and come back equal. -/
+
+def exGridReg2 : Grid := ⟨.cartesian, .regular [.float 1, .float 1] [3, 2] [.float 0, .float 0], .null⟩
+def exGridSep : Grid := ⟨.polar, .separated [⟨"f8", [3], [0, 1, 3]⟩, ⟨"f8", [2], [0, 2]⟩], .arr ⟨"f8", [6], [1, 2, 3, 4, 5, 6]⟩⟩
+def exFieldImage : Field := ⟨⟨"f8", [2, 6], [1, 2, 3, 4, 5, 6, 7, 8, 9, 10, 11, 12]⟩, exGridReg2⟩
+def exTensorImage : Field := ⟨⟨"i4", [2, 1, 6], [1, 2, 3, 4, 5, 6, 7, 8, 9, 10, 11, 12]⟩, exGridSep⟩
+
+example : exFieldImage.grid.Ok ∧ 0 < exFieldImage.grid.coords.ndim ∧
+    exFieldImage.values.shape = [2] ++ [exFieldImage.grid.coords.size] := by
+  refine ⟨⟨rfl, ?_⟩, by decide, by decide⟩
+  simp [exFieldImage, exGridReg2, Coords.WellFormed, Homogeneous, PyNum.isInt]
+
+example : exTensorImage.grid.Ok ∧ 0 < exTensorImage.grid.coords.ndim ∧
+    exTensorImage.values.shape = [2, 1] ++ [exTensorImage.grid.coords.size] := by
+  refine ⟨⟨rfl, ?_⟩, by decide, by decide⟩
+  simp [exTensorImage, exGridSep, Coords.WellFormed]
+
+example : (writeFieldFits exFieldImage).map (fun file => file.image.map (·.shape)) = .ok (some [2, 2, 3]) ∧
+    ((writeFieldFits exFieldImage).bind readFieldFits).map (·.values) = .ok exFieldImage.values := by
+  constructor <;> decide +kernel
+
+example : (writeFieldFits exTensorImage).map (fun file => file.image.map (·.shape)) = .ok (some [2, 1, 2, 3]) ∧
+    ((writeFieldFits exTensorImage).bind readFieldFits).map (·.values) = .ok exTensorImage.values := by
+  constructor <;> decide +kernel
+
+/-- `shape[:-grid.ndim]` is modelled literally (`pyDropLast`): for a zero-dimensional separated grid
+it is `shape[:0] = ()`, and a scalar field on such a grid (the one case the real code writes) comes
+back as written.  For `ndim = 0` and a non-empty tensor shape the real writer raises, the model's
+does not: that is what `hnd` excludes. -/
+example : ((writeFieldFits ⟨⟨"f8", [1], [5]⟩, ⟨.cartesian, .separated [], .null⟩⟩).bind readFieldFits).map
+    (·.values) = .ok ⟨"f8", [1], [5]⟩ := by decide +kernel
+
 /-- **Dense mode bases through FITS** (after the repair of D160).  For every tensor shape `ts`,
 number of modes `m` and grid: whenever `write_mode_basis` can write the file, `read_mode_basis`
 returns the basis that was written.  On separated grids the matrix travels as an image with axes
 (mode, tensor…, grid…). -/
 theorem fits_basis_dense_roundtrip (b : ModeBasis) (a : Arr) (g : Grid) (ts : List Nat) (m : Nat)
-    (htm : b.tm = .dense a) (hg : b.grid = some g) (h : g.Ok)
+    (htm : b.tm = .dense a) (hg : b.grid = some g) (h : g.Ok) (hnd : 0 < g.coords.ndim)
     (hshape : a.shape = ts ++ [g.coords.size, m]) (hdata : a.data.length = prod a.shape)
     (file : FitsFile) (hw : writeBasisFits b = .ok file) : readBasisFits file = .ok b := by
   obtain ⟨tm, og⟩ := b
@@ -263,8 +417,8 @@ theorem fits_basis_dense_roundtrip (b : ModeBasis) (a : Arr) (g : Grid) (ts : Li
     · split at hw
       · injection hw with hw
         subst hw
-        have ht := take_length_sub (m :: ts) g.coords.shape g.coords.ndim hlen
-        simp only [List.length_append, List.cons_append, List.length_cons] at ht
+        have ht := pyDropLast_append (m :: ts) g.coords.shape g.coords.ndim hlen hnd
+        simp only [List.cons_append] at ht
         have hlenD' : data.length = prod ts * prod g.coords.shape * m := by
           rw [hlenD, prod_append, prod_singleton, hsize]
         simp [readBasisFits, Tree.erase, eraseKey, Tree.set, setKey, Tree.get, lookup,
@@ -278,10 +432,19 @@ theorem fits_basis_dense_roundtrip (b : ModeBasis) (a : Arr) (g : Grid) (ts : Li
     have := modebasis_dict_roundtrip ⟨.dense ⟨dt, ts ++ [g.coords.size, m], data⟩, some g⟩ g rfl h
     simpa [readBasisFits, ModeBasis.toDict, ModeBasis.isSparse, Except.bind] using this
 
+/-- witness of the image branch for a dense tensor basis: hypotheses hold, the image has axes
+(mode, tensor, grid) -/
+example : (⟨.cartesian, .regular [.float 1] [2] [.float 0], .null⟩ : Grid).Ok ∧
+    (writeBasisFits ⟨.dense ⟨"f8", [2, 2, 3], [1, 2, 3, 4, 5, 6, 7, 8, 9, 10, 11, 12]⟩,
+      some ⟨.cartesian, .regular [.float 1] [2] [.float 0], .null⟩⟩).map
+      (fun file => file.image.map (·.shape)) = .ok (some [3, 2, 2]) := by
+  refine ⟨⟨rfl, ?_⟩, by decide +kernel⟩
+  simp [Coords.WellFormed, Homogeneous, PyNum.isInt]
+
 /-- Reading a sparse basis back from FITS gives either the very same CSC matrix (tree path) or
 the re-sparsified dense image `csc_matrix(c.todense())` (image path, after the repair of D14). -/
 theorem fits_basis_sparse_read (b : ModeBasis) (c : Csc) (g : Grid) (m : Nat)
-    (htm : b.tm = .sparse c) (hg : b.grid = some g) (h : g.Ok)
+    (htm : b.tm = .sparse c) (hg : b.grid = some g) (h : g.Ok) (hnd : 0 < g.coords.ndim)
     (hshape : c.shape = [g.coords.size, m])
     (file : FitsFile) (hw : writeBasisFits b = .ok file) :
     readBasisFits file = .ok b ∨
@@ -316,9 +479,8 @@ theorem fits_basis_sparse_read (b : ModeBasis) (c : Csc) (g : Grid) (m : Nat)
     · split at hw
       · injection hw with hw
         subst hw
-        have ht := take_length_sub [m] g.coords.shape g.coords.ndim hlen
-        simp only [List.length_append, List.cons_append, List.nil_append, List.length_cons,
-          List.length_nil] at ht
+        have ht := pyDropLast_append [m] g.coords.shape g.coords.ndim hlen hnd
+        simp only [List.cons_append, List.nil_append] at ht
         have hlenD' : data.length = prod g.coords.shape * m := by rw [hAd, hsize]
         simp [readBasisFits, Tree.erase, eraseKey, Tree.set, setKey, Tree.get, lookup,
           grid_dict_roundtrip g h, bind, Except.bind, Arr.reshape, ht, hprod, prod, prod_append,
@@ -345,12 +507,12 @@ it can be read, and the basis read is sparse, on the same grid, with the same ma
 (`todense()` equal; on the image path explicit zeros, duplicates and index order of the CSC
 structure are normalised by SciPy, which the property allows). -/
 theorem fits_basis_sparse_roundtrip (b : ModeBasis) (c : Csc) (g : Grid) (m : Nat)
-    (htm : b.tm = .sparse c) (hg : b.grid = some g) (h : g.Ok)
+    (htm : b.tm = .sparse c) (hg : b.grid = some g) (h : g.Ok) (hnd : 0 < g.coords.ndim)
     (hshape : c.shape = [g.coords.size, m])
     (file : FitsFile) (hw : writeBasisFits b = .ok file) :
     ∃ b', readBasisFits file = .ok b' ∧ b'.isSparse = true ∧ b'.grid = b.grid ∧
       b'.denseArr = b.denseArr := by
-  rcases fits_basis_sparse_read b c g m htm hg h hshape file hw with hr | hr
+  rcases fits_basis_sparse_read b c g m htm hg h hnd hshape file hw with hr | hr
   · exact ⟨b, hr, by simp [ModeBasis.isSparse, htm], rfl, rfl⟩
   · refine ⟨_, hr, rfl, hg.symm, ?_⟩
     obtain ⟨hs, hl⟩ := cscToDense_shape c _ _ hshape
@@ -359,7 +521,601 @@ theorem fits_basis_sparse_roundtrip (b : ModeBasis) (c : Csc) (g : Grid) (m : Na
     simp only [ModeBasis.denseArr, htm]
     rw [heta, cscToDense_denseToCsc _ _ _ _ hl]
 
-/-! ### the unrepaired read/write paths and their counterexamples -/
+/-! ## which objects can be written to FITS (the guard "whenever it can be written" made explicit) -/
+
+/-- **Which fields `write_field` can write to FITS**: every field on a grid that is not separated
+(the values travel in the tree), and on a separated grid exactly the dtypes astropy takes for an
+image HDU (`fitsDtypeOk`; `bool`, `complex`, `float16` are refused with `KeyError`).  The write status
+`w=` of every real `write_field(…fits / fits.gz)` is compared with `writeFieldFits`. -/
+theorem fits_field_writable_iff (f : Field) (ts : List Nat)
+    (hshape : f.values.shape = ts ++ [f.grid.coords.size]) :
+    ((writeFieldFits f).toBool = true ↔
+      (f.grid.coords.isSeparated = false ∨ fitsDtypeOk f.values.dtype = true)) ∧
+    ((writeFieldFits f).toBool = false → writeFieldFits f = .error .key) := by
+  obtain ⟨⟨dt, shape, data⟩, g⟩ := f
+  simp only at hshape
+  subst hshape
+  unfold writeFieldFits
+  by_cases hsep : g.coords.isSeparated = true
+  · have hsize := Coords.size_eq g.coords hsep
+    have hprod : prod (ts ++ g.coords.shape) = prod (ts ++ [g.coords.size]) := by
+      simp [prod_append, prod_singleton, hsize]
+    by_cases hd : fitsDtypeOk dt = true <;>
+      simp [hsep, Arr.reshape, List.dropLast_concat, hprod, bind, Except.bind, hd, Except.toBool]
+  · simp [hsep, Except.toBool]
+
+example : (writeFieldFits ⟨⟨"c16", [6], [1, 2, 3, 4, 5, 6]⟩, exGridReg2⟩).map (fun _ => ()) = .error .key ∧
+    (writeFieldFits ⟨⟨"c16", [4], [1, 2, 3, 4]⟩,
+      ⟨.cartesian, .unstructured [⟨"f8", [4], [0, 1, 3, 4]⟩], .null⟩⟩).toBool = true := by
+  constructor <;> decide +kernel
+
+/-- **Fields through FITS, without the hypothesis "could be written"**: for every field whose
+dtype is accepted (or whose grid is not separated) the file is written *and* read back equal. -/
+theorem fits_field_roundtrip_total (f : Field) (ts : List Nat) (h : f.grid.Ok)
+    (hnd : 0 < f.grid.coords.ndim) (hshape : f.values.shape = ts ++ [f.grid.coords.size])
+    (hd : f.grid.coords.isSeparated = false ∨ fitsDtypeOk f.values.dtype = true) :
+    (writeFieldFits f).bind readFieldFits = .ok f := by
+  have hw := ((fits_field_writable_iff f ts hshape).1).2 hd
+  cases hfile : writeFieldFits f with
+  | error e => rw [hfile] at hw; cases hw
+  | ok file => exact fits_field_roundtrip f ts h hnd hshape file hfile
+
+/-- **Which mode bases `write_mode_basis` can write to FITS** (dense or sparse; `b.denseArr` is the
+matrix itself or `todense()` of the CSC matrix): every basis on a grid that is empty or not
+separated; on a separated grid the dtype must be one astropy accepts (else `KeyError`) and the grid
+regular (else `ValueError`: a separated grid has no `delta` for the WCS header). -/
+theorem fits_basis_writable_iff (b : ModeBasis) (g : Grid) (ts : List Nat) (m : Nat)
+    (hg : b.grid = some g) (hshape : b.denseArr.shape = ts ++ [g.coords.size, m]) :
+    ((writeBasisFits b).toBool = true ↔
+      (g.coords.size = 0 ∨ g.coords.isSeparated = false ∨
+        (fitsDtypeOk b.denseArr.dtype = true ∧ g.coords.isRegular = true))) ∧
+    ((writeBasisFits b).toBool = false →
+      writeBasisFits b = .error (if fitsDtypeOk b.denseArr.dtype then .value else .key)) := by
+  obtain ⟨tm, og⟩ := b
+  simp only at hg
+  subst hg
+  generalize hA : (ModeBasis.denseArr ⟨tm, some g⟩) = A at hshape
+  obtain ⟨dt, shape, data⟩ := A
+  simp only at hshape
+  subst hshape
+  have hsh : ts ++ [g.coords.size, m] = (ts ++ [g.coords.size]) ++ [m] :=
+    (List.append_assoc ts [g.coords.size] [m]).symm
+  unfold writeBasisFits
+  simp only [ModeBasis.toDict, bind, Except.bind, hA]
+  by_cases hz : g.coords.size = 0
+  · simp [hz, Except.toBool]
+  by_cases hsep : g.coords.isSeparated = true
+  · have hsize := Coords.size_eq g.coords hsep
+    have hprod : prod (m :: (ts ++ g.coords.shape)) = prod (m :: (ts ++ [g.coords.size])) := by
+      simp [prod, prod_append, hsize]
+    have hz' : (g.coords.size ≠ 0 && g.coords.isSeparated) = true := by simp [hz, hsep]
+    simp only [hz', if_true, hsh, List.getLastD_concat, List.dropLast_concat, Arr.moveLastToFront,
+      Arr.reshape, hprod]
+    by_cases hd : fitsDtypeOk dt = true <;> by_cases hr : g.coords.isRegular = true <;>
+      simp [hz, hsep, hd, hr, Except.toBool]
+  · simp [hz, hsep, Except.toBool]
+
+/-- **Dense mode bases through FITS, without the hypothesis "could be written".** -/
+theorem fits_basis_dense_roundtrip_total (b : ModeBasis) (a : Arr) (g : Grid) (ts : List Nat) (m : Nat)
+    (htm : b.tm = .dense a) (hg : b.grid = some g) (h : g.Ok) (hnd : 0 < g.coords.ndim)
+    (hshape : a.shape = ts ++ [g.coords.size, m]) (hdata : a.data.length = prod a.shape)
+    (hwr : g.coords.size = 0 ∨ g.coords.isSeparated = false ∨
+      (fitsDtypeOk a.dtype = true ∧ g.coords.isRegular = true)) :
+    (writeBasisFits b).bind readBasisFits = .ok b := by
+  have hda : b.denseArr = a := by simp [ModeBasis.denseArr, htm]
+  have hw := ((fits_basis_writable_iff b g ts m hg (hda ▸ hshape)).1).2 (hda ▸ hwr)
+  cases hfile : writeBasisFits b with
+  | error e => rw [hfile] at hw; cases hw
+  | ok file => exact fits_basis_dense_roundtrip b a g ts m htm hg h hnd hshape hdata file hfile
+
+/-- **Sparse mode bases through FITS, without the hypothesis "could be written".** -/
+theorem fits_basis_sparse_roundtrip_total (b : ModeBasis) (c : Csc) (g : Grid) (m : Nat)
+    (htm : b.tm = .sparse c) (hg : b.grid = some g) (h : g.Ok) (hnd : 0 < g.coords.ndim)
+    (hshape : c.shape = [g.coords.size, m])
+    (hwr : g.coords.size = 0 ∨ g.coords.isSeparated = false ∨
+      (fitsDtypeOk c.data.dtype = true ∧ g.coords.isRegular = true)) :
+    ∃ b', (writeBasisFits b).bind readBasisFits = .ok b' ∧ b'.isSparse = true ∧ b'.grid = b.grid ∧
+      b'.denseArr = b.denseArr := by
+  have hda : b.denseArr = cscToDense c := by simp [ModeBasis.denseArr, htm]
+  have hsh : b.denseArr.shape = [] ++ [g.coords.size, m] := by
+    rw [hda]; exact (cscToDense_shape c _ _ hshape).1
+  have hdt : b.denseArr.dtype = c.data.dtype := by rw [hda]; rfl
+  have hw := ((fits_basis_writable_iff b g [] m hg hsh).1).2 (hdt ▸ hwr)
+  cases hfile : writeBasisFits b with
+  | error e => rw [hfile] at hw; cases hw
+  | ok file => exact fits_basis_sparse_roundtrip b c g m htm hg h hnd hshape file hfile
+
+/-! ## grid files and the ASDF layer
+
+`lib : AsdfLib` is the ASDF library, `AsdfFaithful lib` the named assumption about it (trees come
+back as stored, NumPy-scalar weights as Python numbers: `Grid.pyWeights`).  The harness monitors the
+assumption on every asdf file and every grid FITS file it writes (driver op `file`). -/
+
+/-- the library behaviour observed on real files satisfies the hypothesis -/
+theorem asdfFaithful_observed : AsdfFaithful AsdfLib.observed := by
+  refine ⟨?_, ?_, ?_⟩
+  · intro g
+    obtain ⟨s, c, w⟩ := g
+    have : AsdfLib.observed.load (Grid.toDict ⟨s, c, w⟩) = normGridTree (Grid.toDict ⟨s, c, w⟩) := by
+      simp [AsdfLib.observed, asdfLoad, Grid.toDict, Tree.get, lookup]
+    rw [this]
+  · intro f
+    obtain ⟨v, g⟩ := f
+    have : AsdfLib.observed.load (Field.toDict ⟨v, g⟩) = normObjTree (Field.toDict ⟨v, g⟩) := by
+      simp [AsdfLib.observed, asdfLoad, Field.toDict, Tree.get, lookup]
+    rw [this]
+  · intro b t ht
+    obtain ⟨tm, og⟩ := b
+    cases og with
+    | none => simp [ModeBasis.toDict] at ht
+    | some g =>
+      simp only [ModeBasis.toDict] at ht
+      injection ht with ht
+      subst ht
+      have : ∀ x y z, AsdfLib.observed.load (.dict [(.grid, x), (.tm, y), (.isSparse, z)])
+          = normObjTree (.dict [(.grid, x), (.tm, y), (.isSparse, z)]) := by
+        intro x y z
+        simp [AsdfLib.observed, asdfLoad, Tree.get, lookup]
+      rw [this]
+
+/-- **Grids through asdf files**: reading back what was written yields the grid (system,
+coordinates, weights; NumPy-scalar weights as the Python number of the same value). -/
+theorem asdf_grid_roundtrip (lib : AsdfLib) (hl : AsdfFaithful lib) (g : Grid) (h : g.Ok) :
+    (writeGridAsdf lib g).bind readGridAsdf = .ok g.pyWeights := by
+  simp [writeGridAsdf, readGridAsdf, Except.bind, hl.grid, normGridTree_toDict,
+    grid_dict_roundtrip _ (show g.pyWeights.Ok from h)]
+
+/-- **Grids through FITS files** (no image; the tree travels in the embedded ASDF table). -/
+theorem fits_grid_roundtrip (lib : AsdfLib) (hl : AsdfFaithful lib) (g : Grid) (h : g.Ok) :
+    (writeGridFits lib g).bind readGridFits = .ok g.pyWeights := by
+  simp [writeGridFits, readGridFits, Except.bind, hl.grid, normGridTree_toDict,
+    grid_dict_roundtrip _ (show g.pyWeights.Ok from h)]
+
+example : (⟨.polar, .separated [⟨"f8", [2], [0, 1]⟩, ⟨"f8", [3], [0, 1, 3]⟩], .arr ⟨"f8", [], [2]⟩⟩ : Grid).Ok := by
+  simp [Grid.Ok, knownSystem, Coords.WellFormed]
+
+/-- a grid whose weights are not a NumPy scalar is untouched by the ASDF layer, so the two
+theorems above return the very grid that was written -/
+theorem pyWeights_eq_self (g : Grid) (h : g.weights.isNpScalar = false) : g.pyWeights = g := by
+  obtain ⟨s, c, w⟩ := g
+  simp only [Grid.pyWeights]
+  congr
+  unfold pyScalar
+  split
+  · simp [Tree.isNpScalar] at h
+  · rfl
+
+example : (Tree.null).isNpScalar = false ∧ (Tree.arr ⟨"f8", [3], [1, 2, 3]⟩).isNpScalar = false ∧
+    (Tree.num (.float 2)).isNpScalar = false := ⟨rfl, rfl, rfl⟩
+
+/-- **The property-shaped statement for grids, with its exception visible**: a grid file (asdf or
+FITS) can always be written, and the file that was written can be read back *iff* the grid's
+coordinate system is registered in `Grid._coordinate_systems`.  After the repair of D161 that is
+`CartesianGrid`, `PolarGrid` and the base `Grid`; the remaining exception is a user subclass that
+never registered itself (harness kind `unregistered`, stated in `ctx.assumptions`). -/
+theorem grid_file_readable_iff (lib : AsdfLib) (hl : AsdfFaithful lib) (g : Grid)
+    (hc : g.coords.WellFormed) :
+    (∀ file, writeGridAsdf lib g = .ok file →
+      ((readGridAsdf file).toBool = true ↔ knownSystem g.system = true)) ∧
+    (∀ file, writeGridFits lib g = .ok file →
+      ((readGridFits file).toBool = true ↔ knownSystem g.system = true)) := by
+  have key : (Grid.fromDict (lib.load g.toDict)).toBool = true ↔ knownSystem g.system = true := by
+    rw [hl.grid, normGridTree_toDict]
+    exact grid_dict_readable_iff g.pyWeights hc
+  constructor
+  · intro file hw
+    simp only [writeGridAsdf] at hw
+    injection hw with hw
+    subst hw
+    exact key
+  · intro file hw
+    simp only [writeGridFits] at hw
+    injection hw with hw
+    subst hw
+    exact key
+
+example : knownSystem Tag.other = false ∧ knownSystem Tag.noneSys = true := ⟨rfl, rfl⟩
+
+/-- **Fields through asdf files.** -/
+theorem asdf_field_roundtrip (lib : AsdfLib) (hl : AsdfFaithful lib) (f : Field) (h : f.grid.Ok) :
+    (writeFieldAsdf lib f).bind readFieldAsdf = .ok { f with grid := f.grid.pyWeights } := by
+  simp only [writeFieldAsdf, readFieldAsdf, Except.bind, hl.field, normObjTree_field]
+  exact field_dict_roundtrip _ (show f.grid.pyWeights.Ok from h)
+
+/-- **Mode bases through asdf files** (dense stays dense, CSC stays CSC with the same arrays). -/
+theorem asdf_basis_roundtrip (lib : AsdfLib) (hl : AsdfFaithful lib) (b : ModeBasis) (g : Grid)
+    (hg : b.grid = some g) (h : g.Ok) :
+    (writeBasisAsdf lib b).bind readBasisAsdf = .ok { b with grid := some g.pyWeights } := by
+  have hd : ∃ t, b.toDict = .ok t := by
+    obtain ⟨tm, og⟩ := b
+    simp only at hg
+    subst hg
+    exact ⟨_, rfl⟩
+  obtain ⟨t, ht⟩ := hd
+  have hn := normObjTree_basis b g hg t ht
+  have hr := modebasis_dict_roundtrip ({ b with grid := some g.pyWeights } : ModeBasis) g.pyWeights rfl
+    (show g.pyWeights.Ok from h)
+  rw [← hn] at hr
+  simp only [writeBasisAsdf, readBasisAsdf, ht, bind, Except.bind, hl.basis b t ht] at hr ⊢
+  exact hr
+
+example : AsdfFaithful AsdfLib.observed := asdfFaithful_observed
+
+/-- Grid files (asdf, FITS) and asdf files of fields are always written; an asdf file of a mode basis
+exactly when the basis has a grid (else `to_dict` raises `AttributeError`,
+`modebasis_without_grid_has_no_dict`).  The harness reports any refused asdf write of an object that
+has a dictionary form. -/
+theorem asdf_writable_iff (lib : AsdfLib) (g : Grid) (f : Field) (b : ModeBasis) :
+    (writeGridAsdf lib g).toBool = true ∧ (writeGridFits lib g).toBool = true ∧
+    (writeFieldAsdf lib f).toBool = true ∧
+    ((writeBasisAsdf lib b).toBool = true ↔ b.grid.isSome = true) := by
+  refine ⟨rfl, rfl, rfl, ?_⟩
+  obtain ⟨tm, og⟩ := b
+  cases og <;> simp [writeBasisAsdf, ModeBasis.toDict, bind, Except.bind, Except.toBool]
+
+/-! ## file names and formats: `read_*` / `write_*` as a whole
+
+`Model/Serial.lean`, "file names, formats and the dispatch": `resolveName` (`fmt is None` → guess from
+the name, `ValueError`), `to_dict()` before the dispatch, `dispatch` (`NotImplementedError`), then the
+format's writer / reader.  The driver op `filert` runs `write…File` / `read…File`; the harness
+compares write status, the format found in the file written (magic bytes), read status and the
+object read with the real functions on generated `(filename, fmt)` pairs. -/
+
+/-- `_guess_file_format`: whatever precedes the dot, the five documented extensions select the
+three formats (`.fits.gz` is FITS: it does not end in `fits`, the second test is needed; `.pickle`
+does not end in `pkl`).  The driver op `guess` runs `guessFormat`; the harness compares it with the
+real `_guess_file_format` on generated names. -/
+theorem guess_extensions (stem : List Char) :
+    guessFormat (stem ++ '.' :: sAsdf) = some .asdf ∧
+    guessFormat (stem ++ '.' :: sFits) = some .fits ∧
+    guessFormat (stem ++ '.' :: sFitsGz) = some .fits ∧
+    guessFormat (stem ++ '.' :: sPkl) = some .pickle ∧
+    guessFormat (stem ++ '.' :: sPickle) = some .pickle := by
+  have y := fun ext suf h => endsWith_append stem ext suf h
+  have n := fun ext suf h h' => not_endsWith_append stem ext suf h h'
+  refine ⟨?_, ?_, ?_, ?_, ?_⟩
+  · simp only [guessFormat, y ('.' :: sAsdf) sAsdf (by decide), if_true]
+  · simp only [guessFormat, y ('.' :: sFits) sFits (by decide),
+      n ('.' :: sFits) sAsdf (by decide) (by decide), Bool.true_or, if_true]
+    simp
+  · simp only [guessFormat, y ('.' :: sFitsGz) sFitsGz (by decide),
+      n ('.' :: sFitsGz) sAsdf (by decide) (by decide), Bool.or_true, if_true]
+    simp
+  · simp only [guessFormat, y ('.' :: sPkl) sPkl (by decide),
+      n ('.' :: sPkl) sAsdf (by decide) (by decide), n ('.' :: sPkl) sFits (by decide) (by decide),
+      n ('.' :: sPkl) sFitsGz (by decide) (by decide), Bool.true_or, if_true]
+    simp
+  · simp only [guessFormat, y ('.' :: sPickle) sPickle (by decide),
+      n ('.' :: sPickle) sAsdf (by decide) (by decide), n ('.' :: sPickle) sFits (by decide) (by decide),
+      n ('.' :: sPickle) sFitsGz (by decide) (by decide), Bool.or_true, if_true]
+    simp
+
+example : guessFormat "x.fits.gz".toList = some .fits ∧ guessFormat "myasdf".toList = some .asdf ∧
+    guessFormat "x.fit".toList = none ∧ formatOf "x.dat".toList (some "pickle") = .ok .pickle ∧
+    formatOf "x.asdf".toList (some "FITS") = .error .notImpl ∧ formatOf "x.dat".toList none = .error .value := by
+  decide +kernel
+
+/-- **`write_grid(g, filename, fmt)` then `read_grid(filename, fmt)`**, the functions the property
+names, for every file name and every `fmt` argument: the write succeeds exactly when a format is
+found (given, or guessed from the name), and then reading the same `(filename, fmt)` returns the
+grid (through pickle as it is, through asdf / FITS with NumPy-scalar weights as Python numbers). -/
+theorem grid_file_roundtrip (lib : AsdfLib) (hl : AsdfFaithful lib) (name : List Char)
+    (fmt : Option String) (g : Grid) (h : g.Ok) :
+    ((writeGridFile lib name fmt g).toBool = true ↔ (formatOf name fmt).toBool = true) ∧
+    ∀ c, writeGridFile lib name fmt g = .ok c →
+      ∃ f, formatOf name fmt = .ok f ∧
+        readGridFile name fmt c = .ok (if f = .pickle then g else g.pyWeights) := by
+  unfold writeGridFile readGridFile formatOf
+  cases hr : resolveName name fmt with
+  | error e => simp [bind, Except.bind, Except.toBool]
+  | ok s =>
+    cases hd : dispatch s with
+    | error e => simp [bind, Except.bind, Except.toBool, hd]
+    | ok f =>
+      have ha := asdf_grid_roundtrip lib hl g h
+      have hf := fits_grid_roundtrip lib hl g h
+      simp only [writeGridAsdf, writeGridFits, Except.bind] at ha hf
+      cases f <;>
+        simp [bind, Except.bind, Except.toBool, hd, Except.map, writeGridAsdf, writeGridFits, ha, hf]
+
+/-- **`write_field` then `read_field`** for every file name, `fmt` argument, tensor shape, grid kind
+and memory layout `l` of the data (pickle stores `__getstate__()`): which writes succeed, and that
+every file written reads back as the field. -/
+theorem field_file_roundtrip (lib : AsdfLib) (hl : AsdfFaithful lib) (l : Layout) (name : List Char)
+    (fmt : Option String) (f : Field) (ts : List Nat) (h : f.grid.Ok)
+    (hnd : 0 < f.grid.coords.ndim) (hshape : f.values.shape = ts ++ [f.grid.coords.size])
+    (hdata : f.values.data.length = prod f.values.shape) :
+    ((writeFieldFile lib l name fmt f).toBool = true ↔
+      ∃ k, formatOf name fmt = .ok k ∧
+        (k = .fits → f.grid.coords.isSeparated = false ∨ fitsDtypeOk f.values.dtype = true)) ∧
+    ∀ c, writeFieldFile lib l name fmt f = .ok c →
+      ∃ k, formatOf name fmt = .ok k ∧
+        readFieldFile name fmt c =
+          .ok (if k = .asdf then { f with grid := f.grid.pyWeights } else f) := by
+  unfold writeFieldFile readFieldFile formatOf
+  cases hr : resolveName name fmt with
+  | error e => simp [bind, Except.bind, Except.toBool]
+  | ok s =>
+    cases hd : dispatch s with
+    | error e => simp [bind, Except.bind, Except.toBool, hd]
+    | ok k =>
+      cases k with
+      | asdf =>
+        have ha := asdf_field_roundtrip lib hl f h
+        simp only [writeFieldAsdf, Except.bind] at ha
+        simp [bind, Except.bind, Except.toBool, hd, Except.map, writeFieldAsdf, ha]
+      | pickle =>
+        simp [bind, Except.bind, Except.toBool, hd, Except.map, field_pickle_roundtrip f l hdata]
+      | fits =>
+        have hwi := (fits_field_writable_iff f ts hshape).1
+        cases hw : writeFieldFits f with
+        | error e =>
+          rw [hw] at hwi
+          simp only [Except.toBool] at hwi
+          simp [bind, Except.bind, Except.toBool, hd, Except.map, hw]
+          constructor
+          · cases hs : f.grid.coords.isSeparated with
+            | true => rfl
+            | false => exact absurd (hwi.2 (Or.inl hs)) (by simp)
+          · cases hs : fitsDtypeOk f.values.dtype with
+            | false => rfl
+            | true => exact absurd (hwi.2 (Or.inr hs)) (by simp)
+        | ok file =>
+          rw [hw] at hwi
+          have hrt := fits_field_roundtrip f ts h hnd hshape file hw
+          have := hwi.1 rfl
+          simp [bind, Except.bind, Except.toBool, hd, Except.map, hw, hrt]
+          rcases this with h1 | h1 <;> simp [h1]
+
+/-- **`write_mode_basis` then `read_mode_basis`, dense bases**, for every file name and `fmt`. -/
+theorem basis_file_roundtrip_dense (lib : AsdfLib) (hl : AsdfFaithful lib) (name : List Char)
+    (fmt : Option String) (b : ModeBasis) (a : Arr) (g : Grid) (ts : List Nat) (m : Nat)
+    (htm : b.tm = .dense a) (hg : b.grid = some g) (h : g.Ok) (hnd : 0 < g.coords.ndim)
+    (hshape : a.shape = ts ++ [g.coords.size, m]) (hdata : a.data.length = prod a.shape) :
+    ∀ c, writeBasisFile lib name fmt b = .ok c →
+      ∃ k, formatOf name fmt = .ok k ∧
+        readBasisFile name fmt c =
+          .ok (if k = .asdf then { b with grid := some g.pyWeights } else b) := by
+  unfold writeBasisFile readBasisFile formatOf
+  have htd : ∃ t, b.toDict = .ok t := by
+    obtain ⟨tm, og⟩ := b
+    simp only at hg
+    subst hg
+    exact ⟨_, rfl⟩
+  obtain ⟨t, ht⟩ := htd
+  cases hr : resolveName name fmt with
+  | error e => simp [bind, Except.bind]
+  | ok s =>
+    cases hd : dispatch s with
+    | error e => simp [bind, Except.bind, hd, ht]
+    | ok k =>
+      cases k with
+      | asdf =>
+        have ha := asdf_basis_roundtrip lib hl b g hg h
+        cases hw : writeBasisAsdf lib b with
+        | error e => simp [bind, Except.bind, hd, ht, Except.map, hw]
+        | ok file =>
+          rw [hw] at ha
+          simp only [Except.bind] at ha
+          simp [bind, Except.bind, hd, ht, Except.map, hw, ha]
+      | pickle => simp [bind, Except.bind, hd, ht, Except.map]
+      | fits =>
+        cases hw : writeBasisFits b with
+        | error e => simp [bind, Except.bind, hd, ht, Except.map, hw]
+        | ok file =>
+          have hrt := fits_basis_dense_roundtrip b a g ts m htm hg h hnd hshape hdata file hw
+          simp [bind, Except.bind, hd, ht, Except.map, hw, hrt]
+
+/-- `to_dict()` comes before the dispatch: a basis without grid is refused with `AttributeError`
+whatever the format — pickle and formats that do not exist included. -/
+theorem basis_without_grid_not_writable (lib : AsdfLib) (name : List Char) (fmt : Option String)
+    (b : ModeBasis) (hg : b.grid = none) (s : String) (hr : resolveName name fmt = .ok s) :
+    writeBasisFile lib name fmt b = .error .attr := by
+  simp [writeBasisFile, hr, bind, Except.bind, modebasis_without_grid_has_no_dict b hg]
+
+/-- **`write_mode_basis` then `read_mode_basis`, sparse bases**: the basis read is sparse, on the
+same grid, with the same matrix (`todense()`), in every format. -/
+theorem basis_file_roundtrip_sparse (lib : AsdfLib) (hl : AsdfFaithful lib) (name : List Char)
+    (fmt : Option String) (b : ModeBasis) (c : Csc) (g : Grid) (m : Nat)
+    (htm : b.tm = .sparse c) (hg : b.grid = some g) (h : g.Ok) (hnd : 0 < g.coords.ndim)
+    (hshape : c.shape = [g.coords.size, m]) :
+    ∀ st, writeBasisFile lib name fmt b = .ok st →
+      ∃ k b', formatOf name fmt = .ok k ∧ readBasisFile name fmt st = .ok b' ∧
+        b'.isSparse = true ∧ b'.denseArr = b.denseArr ∧
+        b'.grid = (if k = .asdf then some g.pyWeights else some g) := by
+  unfold writeBasisFile readBasisFile formatOf
+  have hsp : b.isSparse = true := by simp [ModeBasis.isSparse, htm]
+  have htd : ∃ t, b.toDict = .ok t := by
+    obtain ⟨tm, og⟩ := b
+    simp only at hg
+    subst hg
+    exact ⟨_, rfl⟩
+  obtain ⟨t, ht⟩ := htd
+  cases hr : resolveName name fmt with
+  | error e => simp [bind, Except.bind]
+  | ok s =>
+    cases hd : dispatch s with
+    | error e => simp [bind, Except.bind, hd, ht]
+    | ok k =>
+      cases k with
+      | asdf =>
+        have ha := asdf_basis_roundtrip lib hl b g hg h
+        cases hw : writeBasisAsdf lib b with
+        | error e => simp [bind, Except.bind, hd, ht, Except.map, hw]
+        | ok file =>
+          rw [hw] at ha
+          simp only [Except.bind] at ha
+          simp [bind, Except.bind, hd, ht, Except.map, hw, ha]
+          exact ⟨by simpa [ModeBasis.isSparse] using hsp, by simp [ModeBasis.denseArr]⟩
+      | pickle => simp [bind, Except.bind, hd, ht, Except.map, hsp, hg]
+      | fits =>
+        cases hw : writeBasisFits b with
+        | error e => simp [bind, Except.bind, hd, ht, Except.map, hw]
+        | ok file =>
+          obtain ⟨b', h1, h2, h3, h4⟩ := fits_basis_sparse_roundtrip b c g m htm hg h hnd hshape file hw
+          simp [bind, Except.bind, hd, ht, Except.map, hw, h1, h2, h3, h4, hg]
+
+/-! ## chains of file round trips -/
+
+/-- **Chains of files, of any length** (what the harness does with A > B > C): a grid that went
+through any sequence of `write_grid` / `read_grid` pairs — any file names, any `fmt` arguments, any
+mixture of formats — is the grid that was written first (NumPy-scalar weights possibly as the Python
+number, once an asdf or FITS file was among them). -/
+theorem grid_file_chain (lib : AsdfLib) (hl : AsdfFaithful lib) (hops : List Hop) (g g' : Grid)
+    (h : g.Ok) (hc : gridChain lib hops g = .ok g') : g' = g ∨ g' = g.pyWeights := by
+  suffices H : ∀ (hops : List Hop) (x : Grid), (x = g ∨ x = g.pyWeights) →
+      gridChain lib hops x = .ok g' → g' = g ∨ g' = g.pyWeights from H hops g (Or.inl rfl) hc
+  intro hops
+  induction hops with
+  | nil =>
+    intro x hx hc
+    simp only [gridChain] at hc
+    injection hc with hc
+    exact hc ▸ hx
+  | cons hop r ih =>
+    intro x hx hc
+    obtain ⟨n, f⟩ := hop
+    have hxok : x.Ok := by rcases hx with rfl | rfl <;> exact h
+    simp only [gridChain, bind, Except.bind] at hc
+    cases hw : writeGridFile lib n f x with
+    | error e => rw [hw] at hc; cases hc
+    | ok c =>
+      rw [hw] at hc
+      obtain ⟨k, _, hread⟩ := (grid_file_roundtrip lib hl n f x hxok).2 c hw
+      simp only [hread] at hc
+      refine ih _ ?_ hc
+      by_cases hk : k = .pickle
+      · simpa [hk] using hx
+      · simp only [hk, if_false]
+        rcases hx with rfl | rfl
+        · exact Or.inr rfl
+        · exact Or.inr (pyWeights_idem g)
+
+example : (gridChain AsdfLib.observed [("a.pkl".toList, none), ("b.dat".toList, some "fits"), ("c.asdf".toList, none)]
+    ⟨.polar, .separated [⟨"f8", [2], [0, 1]⟩, ⟨"f8", [3], [0, 1, 3]⟩], .arr ⟨"f8", [], [2]⟩⟩).map
+      (fun g => (g.weights.isNpScalar, g.system, g.coords.size)) = .ok (false, .polar, 6) := by decide +kernel
+
+/-- A chain of grid files succeeds exactly when a format is found at every hop. -/
+theorem grid_file_chain_succeeds_iff (lib : AsdfLib) (hl : AsdfFaithful lib) (hops : List Hop) (g : Grid)
+    (h : g.Ok) :
+    (gridChain lib hops g).toBool = true ↔ ∀ hop ∈ hops, (formatOf hop.1 hop.2).toBool = true := by
+  induction hops generalizing g with
+  | nil => simp [gridChain, Except.toBool]
+  | cons hop r ih =>
+    obtain ⟨n, f⟩ := hop
+    have hrt := grid_file_roundtrip lib hl n f g h
+    simp only [gridChain, bind, Except.bind, List.forall_mem_cons]
+    cases hw : writeGridFile lib n f g with
+    | error e =>
+      have : (formatOf n f).toBool = false := by
+        cases hf : (formatOf n f).toBool with
+        | false => rfl
+        | true => have := hrt.1.2 hf; rw [hw] at this; cases this
+      constructor
+      · intro hc; cases hc
+      · intro hc; rw [hc.1] at this; cases this
+    | ok c =>
+      obtain ⟨k, hk, hread⟩ := hrt.2 c hw
+      have hfmt : (formatOf n f).toBool = true := by rw [hk]; rfl
+      simp only [hread, hfmt, true_and]
+      by_cases hp : k = .pickle
+      · simp only [hp, if_true]; exact ih g h
+      · simp only [hp, if_false]; exact ih g.pyWeights h
+
+/-- **Chains of files for fields**, any length, any mixture of formats, any memory layout of the
+data at each hop. -/
+theorem field_file_chain (lib : AsdfLib) (hl : AsdfFaithful lib) (hops : List (Layout × Hop))
+    (f f' : Field) (ts : List Nat) (h : f.grid.Ok) (hnd : 0 < f.grid.coords.ndim)
+    (hshape : f.values.shape = ts ++ [f.grid.coords.size])
+    (hdata : f.values.data.length = prod f.values.shape)
+    (hc : fieldChain lib hops f = .ok f') :
+    f' = f ∨ f' = { f with grid := f.grid.pyWeights } := by
+  suffices H : ∀ (hops : List (Layout × Hop)) (x : Field),
+      (x = f ∨ x = { f with grid := f.grid.pyWeights }) →
+      fieldChain lib hops x = .ok f' → f' = f ∨ f' = { f with grid := f.grid.pyWeights } from
+    H hops f (Or.inl rfl) hc
+  intro hops
+  induction hops with
+  | nil =>
+    intro x hx hc
+    simp only [fieldChain] at hc
+    injection hc with hc
+    exact hc ▸ hx
+  | cons hop r ih =>
+    intro x hx hc
+    obtain ⟨l, n, fm⟩ := hop
+    have hinv : x.grid.Ok ∧ 0 < x.grid.coords.ndim ∧ x.values.shape = ts ++ [x.grid.coords.size] ∧
+        x.values.data.length = prod x.values.shape := by
+      rcases hx with rfl | rfl
+      · exact ⟨h, hnd, hshape, hdata⟩
+      · exact ⟨h, hnd, hshape, hdata⟩
+    obtain ⟨h1, h2, h3, h4⟩ := hinv
+    simp only [fieldChain, bind, Except.bind] at hc
+    cases hw : writeFieldFile lib l n fm x with
+    | error e => rw [hw] at hc; cases hc
+    | ok c =>
+      rw [hw] at hc
+      obtain ⟨k, _, hread⟩ := (field_file_roundtrip lib hl l n fm x ts h1 h2 h3 h4).2 c hw
+      simp only [hread] at hc
+      refine ih _ ?_ hc
+      by_cases hk : k = .asdf
+      · simp only [hk, if_true]
+        rcases hx with rfl | rfl
+        · exact Or.inr rfl
+        · right; simp [pyWeights_idem]
+      · simpa [hk] using hx
+
+/-- **Chains of files for dense mode bases**, any length, any mixture of formats.  (Sparse bases go
+through the same `basisChain` in the driver and the harness; for them the single-hop theorem
+`basis_file_roundtrip_sparse` is what is proved — the FITS image path re-sparsifies, and carrying its
+shape invariant along a chain is not done.) -/
+theorem basis_file_chain_dense (lib : AsdfLib) (hl : AsdfFaithful lib) (hops : List Hop)
+    (b b' : ModeBasis) (a : Arr) (g : Grid) (ts : List Nat) (m : Nat)
+    (htm : b.tm = .dense a) (hg : b.grid = some g) (h : g.Ok) (hnd : 0 < g.coords.ndim)
+    (hshape : a.shape = ts ++ [g.coords.size, m]) (hdata : a.data.length = prod a.shape)
+    (hc : basisChain lib hops b = .ok b') :
+    b' = b ∨ b' = { b with grid := some g.pyWeights } := by
+  suffices H : ∀ (hops : List Hop) (x : ModeBasis),
+      (x = b ∨ x = { b with grid := some g.pyWeights }) →
+      basisChain lib hops x = .ok b' → b' = b ∨ b' = { b with grid := some g.pyWeights } from
+    H hops b (Or.inl rfl) hc
+  intro hops
+  induction hops with
+  | nil =>
+    intro x hx hc
+    simp only [basisChain] at hc
+    injection hc with hc
+    exact hc ▸ hx
+  | cons hop r ih =>
+    intro x hx hch
+    obtain ⟨n, fm⟩ := hop
+    simp only [basisChain, bind, Except.bind] at hch
+    cases hw : writeBasisFile lib n fm x with
+    | error e => rw [hw] at hch; cases hch
+    | ok c =>
+      rw [hw] at hch
+      rcases hx with rfl | rfl
+      · obtain ⟨k, _, hread⟩ :=
+          basis_file_roundtrip_dense lib hl n fm x a g ts m htm hg h hnd hshape hdata c hw
+        simp only [hread] at hch
+        refine ih _ ?_ hch
+        by_cases hk : k = .asdf
+        · simp [hk]
+        · simp [hk]
+      · obtain ⟨k, _, hread⟩ :=
+          basis_file_roundtrip_dense lib hl n fm { b with grid := some g.pyWeights } a g.pyWeights ts m
+            htm rfl h hnd hshape hdata c hw
+        simp only [hread] at hch
+        refine ih _ ?_ hch
+        by_cases hk : k = .asdf
+        · simp only [hk, if_true]; right; simp [pyWeights_idem]
+        · simp only [hk, if_false]; right; trivial
+
+/-! ## Old — the unrepaired read/write paths and their counterexamples
+
+Documentation of the defects that were found (D14, D19, D160, D161): statements about `…Old`
+definitions, i.e. about code that `/repo` no longer contains once the `fix:` commits are applied.
+Not evidence for the property. -/
 
 def exGridU : Grid :=
   ⟨.cartesian, .unstructured [⟨"f8", [4], [0, 1, 3, 4]⟩, ⟨"f8", [4], [0, 2, 5, 7]⟩], .null⟩
@@ -389,12 +1145,23 @@ theorem fits_basis_old_counterexample_sparse :
     (writeBasisFitsOld exSparseBasis).bind readBasisFitsOld = .error .value := by
   rfl
 
+/-- D161: on the unrepaired tree the base class `Grid` (coordinate system `'none'`) is written to asdf
+and FITS files that cannot be read back (`KeyError: 'none'`). -/
+theorem base_grid_old_counterexample :
+    (writeGridAsdf AsdfLib.observed ⟨.noneSys, .regular [.float 1] [3] [.float 0], .null⟩).bind readGridAsdfOld
+      = .error .key ∧
+    (writeGridFits AsdfLib.observed ⟨.noneSys, .regular [.float 1] [3] [.float 0], .null⟩).bind readGridFitsOld
+      = .error .key := by
+  constructor <;> rfl
+
 /-- the repaired paths on the same inputs -/
 theorem fits_repaired_on_counterexamples :
     ((writeFieldFits exVector).bind readFieldFits).map (·.values) = .ok exVector.values ∧
     ((writeFieldFits exTensor).bind readFieldFits).map (·.values) = .ok exTensor.values ∧
     ((writeBasisFits exTensorBasis).bind readBasisFits).map (·.tm) = .ok exTensorBasis.tm ∧
-    ((writeBasisFits exSparseBasis).bind readBasisFits).map (·.tm) = .ok exSparseBasis.tm := by
-  refine ⟨rfl, rfl, ?_, ?_⟩ <;> decide +kernel
+    ((writeBasisFits exSparseBasis).bind readBasisFits).map (·.tm) = .ok exSparseBasis.tm ∧
+    (writeGridFits AsdfLib.observed ⟨.noneSys, .regular [.float 1] [3] [.float 0], .null⟩).bind readGridFits
+      = .ok ⟨.noneSys, .regular [.float 1] [3] [.float 0], .null⟩ := by
+  refine ⟨rfl, rfl, ?_, ?_, rfl⟩ <;> decide +kernel
 
 end HcipyVerif.Serial
